@@ -136,6 +136,30 @@ PROPS['C07'] = {
     'assumptions': ['memory allocation for announced lengths (vec![0; len]) is outside the model'],
 }
 
+PROPS['C08'] = {
+    'level': 'proof',
+    'technique': 'Lean 4 refinement proof: chunk/notify event machine of the server connection refines a byte-string specification '
+                 '(induction over events, invariant on the unparsed buffer) + differential check of the real Server::run over '
+                 'exhaustive cuts and notify placements on a deterministic in-memory socket',
+    'claim': 'Lean 4 proof that for every fragmentation of the client bytes and every interleaving of notifications (also inside a '
+             'partly received header or Serial Query payload) the connection\'s responses, Serial Notify removed, equal the '
+             'specification\'s answers to the concatenated bytes; one non-notify response per complete query; malformed/unsupported '
+             'queries get the Error PDU with the offending header; notifications are transparent. Partial: the model fixes the schedule '
+             '"run the connection task until it blocks after every event" on a single-threaded runtime; tokio select/broadcast and the '
+             'payload bytes of the responses are not modelled (C06/C07 cover the payload).',
+    'note': 'Whether the header read survives the notify branch (cancel safety) and MAX_VERSION are regenerated from src/rtr/server.rs. '
+            'The real server is run through Server::run with a one-connection listener, a scripted PayloadSource and a socket that '
+            'reports when the task is parked.',
+    'shards': {'quick': 4, 'thorough': 16},
+    'budget': {'quick': 900, 'thorough': 7200},
+    'rule': 'streams of 1-2 queries from a 24-query pool (reset/serial right and wrong session/serial, versions 0-2, bad length, bad '
+            'version, unknown PDU, garbage, error PDU): every single cut x notify before/between/after; random 1-4 query streams with '
+            '0-3 cuts, random notify subsets, optional truncation and EOF; byte-at-a-time delivery with a notify after every byte; 3 '
+            'source states (ready, not ready, no diffs).',
+    'trusted_base': ['tokio current-thread scheduler, select left bias, broadcast(1) coalescing (modelled as one pending flag)'],
+    'assumptions': ['multi-threaded runtimes and real sockets are not modelled'],
+}
+
 NOT_APPLICABLE = {
 }
 for _i in range(1, 18):
